@@ -16,6 +16,9 @@ CHECKS = {
     'C07': ('exploration', 'metamorphic: same chart under two declaration orders via API and YAML, repeated in-process and under 5 PYTHONHASHSEED values', 'metamorphic / differential property testing (Hypothesis)'),
     'C08': ('fault_enumeration', 'documented evaluation order reconstructed from the MacroStep; every (quick: sampled) condition occurrence made to fail once', 'property-based testing (Hypothesis) + single-fault enumeration'),
     'C09': ('exploration', 'differential: contracts on vs ignore_contract=True on generated charts and on the shipped elevator/microwave contract charts', 'differential property testing (Hypothesis)'),
+    'C10': ('fault_enumeration', 'meta-event sequence reconstructed from the MacroStep vs what a listener and a recording property statechart saw; a property chart turning final at the k-th meta-event for every (quick: sampled) k', 'property-based testing (Hypothesis) + fault enumeration over the k-th meta-event'),
+    'C13': ('exploration', 'model of entered_at/fired_at per state predicts every after()/idle() probe; frozen step time under mid-step clock moves', 'model-based property testing (Hypothesis)'),
+    'C18': ('fault_enumeration', 'reference run vs runs continued from a pickle / deepcopy snapshot taken at every (quick: sampled) macro-step boundary', 'differential property testing (Hypothesis) over snapshot points'),
 }
 NOT_YET = 'check not built yet in this round (planned, see DESIGN.md section 4)'
 
